@@ -593,7 +593,7 @@ package leveldb
 //@   ensures recHas(p.hasRec, recJournalNum) && p.journalNum == num && recHas(p.hasRec, recSeqNum) == old(recHas(p.hasRec, recSeqNum)) && p.hasRec == (old(p.hasRec) | (1 << recJournalNum))
 //@   modifies p.hasRec, p.journalNum
 //@ func (*sessionRecord).setSeqNum
-//@   props C04
+//@   props C04 C19
 //@   mode bv
 //@   ensures recHas(p.hasRec, recSeqNum) && p.seqNum == num && recHas(p.hasRec, recJournalNum) == old(recHas(p.hasRec, recJournalNum)) && p.hasRec == (old(p.hasRec) | (1 << recSeqNum))
 //@   modifies p.hasRec, p.seqNum
@@ -1001,3 +1001,51 @@ package leveldb
 //@   safety off
 //@   ensures [C01:level-0-winner-ends-the-lookup] old(zfound) ==> (!result && (zkt == keyTypeVal ==> err == nil) && (zkt == keyTypeDel ==> err == old(err)))
 //@   ensures [C01:no-hit-goes-deeper] !old(zfound) ==> (result && err == old(err))
+
+// C20 on the same callbacks: the value version.get hands out is only ever one that tOps.find returned (a private
+// copy) - directly, or through the level-0 candidate zval.
+//@ func (*version).get$1
+//@   props C20
+//@   safety off
+//@   ensures [C20:value-comes-from-the-table-reader] (sameslice(value, old(value)) || isnil(value) || freshbase(value)) && (sameslice(zval, old(zval)) || isnil(zval) || freshbase(zval))
+//@ func (*version).get$2
+//@   props C20
+//@   safety off
+//@   ensures [C20:value-is-the-level-0-candidate] (sameslice(value, old(value)) || sameslice(value, old(zval))) && sameslice(zval, old(zval))
+
+// ---------------------------------------------------------------------------
+// C19: Recover rebuilds the table list by scanning every table file (callback 3 of recoverTable, verified as a
+// unit). Per table: the sequence number it reports is not below any valid entry's (together with gLow: it never
+// goes down during the scan), the recorded bounds exist when there is a valid entry, a table with damage is
+// dropped in strict mode and otherwise rebuilt (renamed over the original) before it is registered, a registered
+// table goes to level 0 and raises the recovered sequence number to at least its own.
+//@ ghost var gLow uint64
+//@ func recoverTable$3
+//@   props C19
+//@   abstract keys
+//@   safety off
+//@   at before stmt tgoodKey++
+//@     ghost gLow = tSeq
+//@   loop 1
+//@     invariant [C19:bounds-exist-with-a-valid-entry] tgoodKey >= 0 && tcorruptedKey >= 0 && (tgoodKey > 0 ==> (!isnil(imin) && !isnil(imax)))
+//@   at before stmt imax = append(imax[:0], key...)
+//@     assert [C19:table-sequence-covers-every-entry] tSeq >= seq && tSeq >= gLow
+//@   at before call (*sessionRecord).addTable#1
+//@     assert [C19:registered-tables-are-sound] tgoodKey > 0 && !isnil(imin) && !isnil(imax) && maxSeq >= tSeq && !(strict && (tcorruptedKey > 0 || tcorruptedBlock > 0))
+//@     assert [C19:damaged-tables-are-rebuilt-first] (tcorruptedKey > 0 || tcorruptedBlock > 0) ==> calls("storage.Storage.Rename") == old(calls("storage.Storage.Rename")) + 1
+//@   ensures [C19:at-most-one-table-registered] calls("(*sessionRecord).addTable") == old(calls("(*sessionRecord).addTable")) || calls("(*sessionRecord).addTable") == old(calls("(*sessionRecord).addTable")) + 1
+//@   ensures [C19:sequence-never-goes-down] maxSeq >= old(maxSeq)
+//@ count (*sessionRecord).addTable
+// The fresh manifest carries the highest sequence number seen (creating the manifest does not touch the record
+// being assembled: frame assumed).
+//@ func (*session).create
+//@   trusted
+//@   modifies s.*
+//@ func recoverTable
+//@   props C19
+//@   safety off
+//@   at before call (*session).commit#1
+//@     assert [C19:manifest-carries-the-recovered-sequence] recHas(rec.hasRec, recSeqNum) && rec.seqNum == maxSeq
+//@ func (*sessionRecord).addTable
+//@   props C19
+//@   trusted
